@@ -5,6 +5,7 @@ import ITree.Model.KeyExp
 import ITree.Model.Lists
 import ITree.Model.Seg
 import ITree.Model.SegMach
+import ITree.Model.SegTrace
 import ITree.Model.Check
 import ITree.Model.SegCheck
 import ITree.Model.Arena
@@ -440,6 +441,21 @@ def runSeg (op : Toks) (s? : Option (Seg Int)) (extra : Toks := []) : String :=
   | ["clear"], some s => answer "1" "ok" (showSeg s.clear) ""
   | _, _ => "BAD"
 
+/-- a panic injected into the `k`-th `expiration()` call of a query (C18): the tree `Model/SegTrace.lean`
+records for that call -/
+def runSegInj (op : Toks) (s : Seg Int) (extra : Toks) (k : Nat) : String :=
+  match op with
+  | ["query", a, b, t, n] => match tokInt a, tokInt b, tokInt t, tokInt n with
+    | some a, some b, some t, some n =>
+      let total := (s.chunks.map List.length).sum + 1
+      match s.queryT a b t (if n < 0 then total else n.toNat) with
+      | none => answer (segWf s extra) "FAULT" "-" ""
+      | some (_, _, tr) => match tr.reverse[k]? with
+        | some ev => answer (segWf s extra) "panic" (showSeg ev) ""
+        | none => answer (segWf s extra) "no-such-callback" "-" ""
+    | _, _, _, _ => "BAD"
+  | _ => answer (segWf s extra) "no-such-callback" "-" ""
+
 /-! arena-level model: `R <root> <cap> <nUnused> u… N <n> (<parent> <left> <right> <red> <key> <exp> <val>)*` -/
 
 def parseANodes : Nat → Toks → Option (List (ANode Int) × Toks)
@@ -687,7 +703,9 @@ def process (line : String) : String :=
       | "new" :: _ => runSeg op none
       | "masks" :: _ => runSeg op none
       | _ => match parseSeg stToks with
-        | some s => runSeg op (some s) ((rest.drop 1).headD [])
+        | some s => match rest.findSome? (fun seg => match seg with | ["inj", k] => tokNat k | _ => none) with
+          | some k => runSegInj op s ((rest.drop 1).headD []) k
+          | none => runSeg op (some s) ((rest.drop 1).headD [])
         | none => "BADSTATE"
     else "BADCOLL"
   | _ => "BADLINE"
